@@ -691,6 +691,11 @@ where
                 self.insert_consts(policy.party, policy.constants.clone());
                 let cmd_sender = self.cmd_tx.clone();
                 let policy_cl = policy.clone();
+                // constants that the program does not depend on are not distributed: a peer that is
+                // already complete without them may have started the computation and refuses them
+                let others_need_consts = typed_program
+                    .const_deps
+                    .contains_key(&format!("PARTY_{}", policy.party));
                 let (client_send, client_recv) = oneshot::channel();
                 self.state_kind = PolicyStateKind::SendingConsts {
                     policy,
@@ -702,7 +707,7 @@ where
                 if let Some(ret) = run_ret {
                     let _ = ret.send(Ok(()));
                 }
-                if !policy_cl.constants.is_empty() {
+                if !policy_cl.constants.is_empty() && others_need_consts {
                     tokio::spawn(
                         async move {
                             let const_futs = policy_cl.other_parties().map(async |p| {
@@ -1026,7 +1031,13 @@ where
         policy: Policy,
         typed_program: garble_lang::ast::Program<garble_lang::ast::Type>,
     ) {
-        if self.consts.len() == typed_program.const_deps.len() {
+        // complete once every party the program depends on has delivered its constants (a party may
+        // also supply constants that the program does not use, so counting entries is not enough)
+        if typed_program
+            .const_deps
+            .keys()
+            .all(|party| self.consts.contains_key(party))
+        {
             let receivers = self
                 .channel_receivers
                 .take()
